@@ -10,6 +10,7 @@ use aldrin_core::transport::{AsyncTransport, AsyncTransportExt, Buffered};
 use aldrin_core::ProtocolVersion;
 use futures_channel::mpsc::{Sender, UnboundedReceiver};
 use futures_util::sink::SinkExt;
+use futures_util::stream::StreamExt;
 use select::{Select, Selected};
 
 pub(crate) use event::ConnectionEvent;
@@ -112,7 +113,12 @@ where
                     break self.client_shutdown(id).await;
                 }
 
-                Selected::Transport(Ok(msg)) => self.send_broker_msg(id.clone(), msg).await?,
+                Selected::Transport(Ok(msg)) => {
+                    if self.send_broker_msg(id.clone(), msg).await.is_err() {
+                        break self.broker_stopped().await;
+                    }
+                }
+
 
                 Selected::TransportFlushed(Ok(())) => self.flush_transport = false,
 
@@ -122,6 +128,27 @@ where
                 }
             }
         }
+    }
+
+    /// Handles the case that the broker doesn't accept messages anymore.
+    ///
+    /// If the broker has shut down in an orderly fashion, then it has queued a shutdown message for
+    /// this connection before it stopped. Everything up to that message is still delivered to the
+    /// client.
+    async fn broker_stopped(&mut self) -> Result<(), ConnectionError<T::Error>> {
+        while let Some(recv) = self.recv.as_mut() {
+            match recv.next().await {
+                Some(VersionedMessage {
+                    msg: Message::Shutdown(Shutdown),
+                    version: _,
+                }) => return self.broker_shutdown().await,
+
+                Some(msg) => self.send_message(msg).await?,
+                None => break,
+            }
+        }
+
+        Err(ConnectionError::UnexpectedShutdown)
     }
 
     async fn broker_shutdown(&mut self) -> Result<(), ConnectionError<T::Error>> {
